@@ -2,6 +2,15 @@
   C01 — Empty command line reproduces the dataclass defaults at every destination.
   Theorems about `Model/Defaults` by mutual structural induction over the class tree
   (any depth, any width, leaves and dataclass-typed members interleaved).
+
+  Layers (each is proved from the one before):
+    semantic    `c01_caller_default`, `c01_no_caller`, `c01_member_factory` under `LeafStable` / `QuietNone`
+    typed       `StableDefault` (inductive, every annotation of the grammar) ⇒ `LeafStable`; `c01_caller_default_typed`
+    syntactic   `WellTyped` + `modelledTy` − {`unionStr`, `literalShadowed`} ⇒ `StableDefault` (`c01_typed_defaults_partial`);
+                `QuietSyn` ⇒ `QuietNone` (an Optional member left None stays None — proved);
+                `OwnTyped` ⇒ `OwnStable` (`c01_no_caller_typed`); `FitsWT` ⇒ `FitsTyped` (`c01_caller_default_wellTyped`)
+  Full statements kept visible and refuted: `AllDefaultsStable`, `AllTypedDefaultsStable`
+  (`c01_union_default_witness`, `c01_union_default_typed_witness`, `c01_literal_collision_witness`).
 -/
 import SpVerif.Model.Defaults
 namespace SpVerif.C01
@@ -232,14 +241,10 @@ theorem c01_union_default_witness : ¬ AllDefaultsStable := by
 
 /-! ### stability of ordinary leaves (sufficient conditions) -/
 
-/-- a non-optional `int` / `float` / `bool`-free plain leaf holding a non-string value is stable -/
-theorem stable_plain_nonstring (fenv : FEnv) (name : Str) (b : BTy) (v : Scalar)
-    (hb : b = .int ∨ b = .float) (hv : ∀ s, v ≠ .str s) (hn : v ≠ .none) :
-    LeafStable fenv { name := name, ty := { inner := .sc (.base b), optional := false },
-                      default := .value (.sc v) } (.sc v) := by
-  unfold LeafStable leafEmpty
-  rcases hb with rfl | rfl <;>
-  · cases v <;> simp_all [argOptions, defaultVal, postprocess, bconvOf]
+theorem containerConv_ne_none (item : ITy) : containerConv item ≠ none := by
+  cases item with
+  | base b => cases b <;> simp [containerConv]
+  | union a => simp [containerConv]
 
 /-- container-typed leaves (List / Tuple / variadic tuple, items of any modelled type): a
     container default is never a string, so it reaches `postprocess` untouched, which only fixes
@@ -323,14 +328,78 @@ theorem stable_any_str (fenv : FEnv) (name : Str) (als : List Str) (opt : Bool) 
   unfold LeafStable leafEmpty
   cases opt <;> simp [argOptions, defaultVal, postprocess, bconvOf, convOfItem, Conv.apply, BConv.apply]
 
+
+theorem find_reverse_unique (vals : List Scalar) (v : Scalar) (p : Scalar → Bool) (hv : v ∈ vals) (hp : p v = true)
+    (hu : ∀ w ∈ vals, p w = true → w = v) : vals.reverse.find? p = some v := by
+  cases hf : vals.reverse.find? p with
+  | none =>
+    have := List.find?_eq_none.mp hf v (List.mem_reverse.mpr hv)
+    exact absurd hp this
+  | some w =>
+    have hw := List.find?_some hf
+    have hm := List.mem_reverse.mp (List.mem_of_find?_eq_some hf)
+    rw [hu w hm hw]
+
+/-- a Literal leaf: a non-string value is never looked up; a string value is looked up by name in
+    `choice_dict = {str(v): v}` (last value of each name) and must find itself -/
+theorem stable_literal (fenv : FEnv) (name : Str) (als : List Str) (vals : List Scalar) (v : Scalar) (d : DefaultV)
+    (hn : vals.mapM literalName ≠ none)
+    (hf : ∀ s, v = .str s → vals.reverse.find? (fun w => literalName w = some s) = some v) :
+    LeafStable fenv { name := name, ty := { inner := .literal vals, optional := false }, default := d, aliases := als } (.sc v) := by
+  unfold LeafStable leafEmpty
+  cases hm : vals.mapM literalName with
+  | none => exact absurd hm hn
+  | some names =>
+    cases v with
+    | str s =>
+      have hf' := hf s rfl
+      simp [argOptions, defaultVal, postprocess, hm, Conv.apply, BConv.apply, hf']
+    | _ => simp [argOptions, defaultVal, postprocess, hm]
+
+/-- the syntactic sufficient condition: the value is one of the Literal's values and no OTHER value has the same name -/
+theorem literal_finds_itself (vals : List Scalar) (v : Scalar) (hv : v ∈ vals)
+    (hu : ∀ w ∈ vals, literalName w = literalName v → w = v) :
+    ∀ s, v = .str s → vals.reverse.find? (fun w => literalName w = some s) = some v := by
+  intro s hs
+  subst hs
+  exact find_reverse_unique vals (.str s) _ hv (by simp [literalName])
+    (fun w hw h => hu w hw (by simpa [literalName] using h))
+
+/-- the annotation is inside the modelled fragment (`argOptions` answers) -/
+def modelledTy (ty : FTy) : Bool :=
+  match ty.optional, ty.inner with
+  | true, .literal _ => false
+  | false, .literal vals => (vals.mapM literalName).isSome
+  | _, .tuple items => (tupleConv items).isSome
+  | _, _ => true
+
+theorem stable_optional_none_any (fenv : FEnv) (name : Str) (als : List Str) (n : NTy) (d : DefaultV)
+    (hm : modelledTy { inner := n, optional := true } = true) :
+    LeafStable fenv { name := name, ty := { inner := n, optional := true }, default := d, aliases := als } (.sc .none) := by
+  unfold LeafStable leafEmpty
+  cases n with
+  | sc t => simp [argOptions, defaultVal, postprocess]
+  | literal vals => simp [modelledTy] at hm
+  | list item =>
+    cases hc : containerConv item with
+    | none => cases item with
+      | base b => cases b <;> simp [containerConv] at hc
+      | union a => simp [containerConv] at hc
+    | some c => simp [argOptions, defaultVal, postprocess, hc]
+  | tuple items =>
+    cases hc : tupleConv items with
+    | none => simp [modelledTy, hc] at hm
+    | some c => simp [argOptions, defaultVal, postprocess, hc, listToTuple]
+  | vtuple item => simp [argOptions, defaultVal, postprocess, listToTuple]
+
 /-- "the value `v` is a default of annotation `t` that the cascade returns unchanged": every
     annotation of the command-line grammar with a value of its type, EXCEPT a string held by a
-    Union-typed (or int/float-typed) leaf -/
+    Union-typed (or int/float-typed) leaf and a Literal value shadowed by another value of the same name -/
 inductive StableDefault : FTy → Val → Prop
-  | list (item opt xs) (h : containerConv item ≠ none) : StableDefault { inner := .list item, optional := opt } (.list xs)
+  | list (item opt xs) : StableDefault { inner := .list item, optional := opt } (.list xs)
   | vtuple (item opt xs) : StableDefault { inner := .vtuple item, optional := opt } (.tuple xs)
   | tuple (items opt xs) (h : tupleConv items ≠ none) : StableDefault { inner := .tuple items, optional := opt } (.tuple xs)
-  | optNone (t) : StableDefault { inner := .sc t, optional := true } (.sc .none)
+  | optNone (n) (h : modelledTy { inner := n, optional := true } = true) : StableDefault { inner := n, optional := true } (.sc .none)
   | str (opt s) : StableDefault { inner := .sc (.base .str), optional := opt } (.sc (.str s))
   | anyStr (opt s) : StableDefault { inner := .sc (.base .any), optional := opt } (.sc (.str s))
   | bool (opt b) : StableDefault { inner := .sc (.base .bool), optional := opt } (.sc (.bool b))
@@ -341,6 +410,9 @@ inductive StableDefault : FTy → Val → Prop
       StableDefault { inner := .sc (.base b), optional := opt } (.sc v)
   | union (alts opt v) (hv : ∀ s, v ≠ .str s) (hn : v ≠ .none) :
       StableDefault { inner := .sc (.union alts), optional := opt } (.sc v)
+  | literal (vals v) (hn : vals.mapM literalName ≠ none)
+      (hf : ∀ s, v = .str s → vals.reverse.find? (fun w => literalName w = some s) = some v) :
+      StableDefault { inner := .literal vals, optional := false } (.sc v)
 
 /-- **leaf stability is provable, not assumed, on the grammar**: the hypothesis `LeafStable` of the
     C01 theorems holds for every leaf whose (instance or own) default value is a `StableDefault` of
@@ -350,10 +422,10 @@ theorem leafStable_of_stableDefault (fenv : FEnv) (f : FieldSpec) (v : Val)
   obtain ⟨name, ty, d, als⟩ := f
   simp only at h
   cases h with
-  | list item opt xs hc => exact stable_list fenv name als item opt xs d hc
+  | list item opt xs => exact stable_list fenv name als item opt xs d (containerConv_ne_none item)
   | vtuple item opt xs => exact stable_vtuple fenv name als item opt xs d
   | tuple items opt xs hc => exact stable_tuple fenv name als items opt xs d hc
-  | optNone t => exact stable_optional_none fenv name als t d
+  | optNone n hm => exact stable_optional_none_any fenv name als n d hm
   | str opt s => exact stable_str fenv name als opt s d
   | anyStr opt s => exact stable_any_str fenv name als opt s d
   | bool opt b => exact stable_bool fenv name als opt b d
@@ -362,6 +434,215 @@ theorem leafStable_of_stableDefault (fenv : FEnv) (f : FieldSpec) (v : Val)
   | enumOpt cls ms m => exact stable_enum_opt fenv name als cls ms m d
   | plain b opt v hb hv hn => exact stable_plain fenv name als b opt v hb hv hn d
   | union alts opt v hv hn => exact stable_union_nonstring fenv name als alts opt v hv hn d
+  | literal vals v hn hf => exact stable_literal fenv name als vals v d hn hf
+
+/-! ### completeness of `StableDefault` on the grammar: every WELL-TYPED default of a modelled annotation is stable,
+    except the two named (decidable) exclusions -/
+
+def wtB : BTy → Scalar → Bool
+  | .int, .int _ => true
+  | .float, .float _ => true
+  | .float, .int _ => true
+  | .str, .str _ => true
+  | .bool, .bool _ => true
+  | .path, .path _ => true
+  | .any, .none => false
+  | .any, _ => true
+  | .enum c ms, .enum c' m => c == c' && ms.contains m
+  | _, _ => false
+
+def wtI : ITy → Scalar → Bool
+  | .base b, s => wtB b s
+  | .union alts, s => alts.any (fun b => wtB b s)
+
+def wtItems : List ITy → List Scalar → Bool
+  | [], [] => true
+  | t :: ts, x :: xs => wtI t x && wtItems ts xs
+  | _, _ => false
+
+def wtN : NTy → Val → Bool
+  | .sc t, .sc s => wtI t s
+  | .literal vals, .sc s => vals.contains s
+  | .list item, .list xs => xs.all (wtI item)
+  | .tuple items, .tuple xs => wtItems items xs
+  | .vtuple item, .tuple xs => xs.all (wtI item)
+  | _, _ => false
+
+def WellTyped (ty : FTy) (v : Val) : Bool :=
+  (ty.optional && v == .sc .none) || wtN ty.inner v
+
+/-- named exclusion (open finding C01-union-str-default-converted): a string held by a Union-typed leaf -/
+def unionStr (ty : FTy) (v : Val) : Bool :=
+  match ty.inner, v with
+  | .sc (.union _), .sc (.str _) => true
+  | _, _ => false
+
+/-- named exclusion (open finding C01-literal-name-collision): a STRING value of a Literal whose name belongs, in the
+    name → value table (last value of each name), to another value — `"0"` in `Literal["0", 0]` -/
+def literalShadowed (ty : FTy) (v : Val) : Bool :=
+  match ty.inner, v with
+  | .literal vals, .sc (.str s) => vals.reverse.find? (fun w => literalName w = some s) != some (.str s)
+  | _, _ => false
+
+theorem wtB_ne_none (b : BTy) (s : Scalar) (h : wtB b s = true) : s ≠ .none := by
+  intro hs; subst hs; cases b <;> simp [wtB] at h
+
+theorem stableDefault_of_wtB (b : BTy) (opt : Bool) (s : Scalar) (h : wtB b s = true) :
+    StableDefault { inner := .sc (.base b), optional := opt } (.sc s) := by
+  cases b with
+  | int => cases s <;> simp [wtB] at h
+           exact .plain .int opt _ (Or.inl rfl) (by intro s h; cases h) (by intro h; cases h)
+  | float => cases s <;> simp [wtB] at h
+             · exact .plain .float opt _ (Or.inr (Or.inl rfl)) (by intro s h; cases h) (by intro h; cases h)
+             · exact .plain .float opt _ (Or.inr (Or.inl rfl)) (by intro s h; cases h) (by intro h; cases h)
+  | str => cases s <;> simp [wtB] at h
+           exact .str opt _
+  | bool => cases s <;> simp [wtB] at h
+            exact .bool opt _
+  | path => cases s <;> simp [wtB] at h
+            exact .path opt _
+  | any =>
+    cases s with
+    | str x => exact .anyStr opt x
+    | none => simp [wtB] at h
+    | _ => exact .plain .any opt _ (Or.inr (Or.inr rfl)) (by intro s h; cases h) (by intro h; cases h)
+  | enum c ms =>
+    cases s <;> simp [wtB] at h
+    obtain ⟨hc, hm⟩ := h
+    subst hc
+    cases opt
+    · exact .enum c ms _ hm
+    · exact .enumOpt c ms _
+
+theorem stableDefault_of_wellTyped (ty : FTy) (v : Val) (hw : WellTyped ty v = true) (hm : modelledTy ty = true)
+    (hu : unionStr ty v = false) (hl : literalShadowed ty v = false) : StableDefault ty v := by
+  obtain ⟨inner, opt⟩ := ty
+  simp only [WellTyped, Bool.or_eq_true, Bool.and_eq_true, beq_iff_eq] at hw
+  rcases hw with ⟨ho, hv⟩ | hw
+  · subst ho; subst hv
+    exact .optNone inner hm
+  · cases inner with
+    | sc t =>
+      cases v with
+      | sc s =>
+        cases t with
+        | base b => exact stableDefault_of_wtB b opt s (by simpa [wtN, wtI] using hw)
+        | union alts =>
+          simp only [wtN, wtI, List.any_eq_true] at hw
+          obtain ⟨b, _, hb⟩ := hw
+          refine .union alts opt s ?_ (wtB_ne_none b s hb)
+          intro x hx; subst hx; simp [unionStr] at hu
+      | list l => simp [wtN] at hw
+      | tuple l => simp [wtN] at hw
+    | literal vals =>
+      cases v with
+      | sc s =>
+        cases opt
+        · simp only [wtN, List.contains_iff_mem] at hw
+          refine .literal vals s ?_ ?_
+          · simp only [modelledTy] at hm
+            intro h; rw [h] at hm; cases hm
+          · intro x hx
+            subst hx
+            simpa [literalShadowed] using hl
+        · simp [modelledTy] at hm
+      | list l => simp [wtN] at hw
+      | tuple l => simp [wtN] at hw
+    | list item => cases v <;> simp [wtN] at hw; exact .list item opt _
+    | tuple items =>
+      cases v <;> simp [wtN] at hw
+      refine .tuple items opt _ ?_
+      intro h; cases opt <;> simp [modelledTy, h] at hm
+    | vtuple item => cases v <;> simp [wtN] at hw; exact .vtuple item opt _
+def leafOK (ty : FTy) (v : Val) : Bool :=
+  WellTyped ty v && modelledTy ty && !unionStr ty v && !literalShadowed ty v
+
+theorem stableDefault_of_leafOK (ty : FTy) (v : Val) (h : leafOK ty v = true) : StableDefault ty v := by
+  simp only [leafOK, Bool.and_eq_true, Bool.not_eq_true'] at h
+  exact stableDefault_of_wellTyped ty v h.1.1.1 h.1.1.2 h.1.2 h.2
+
+
+/-- the full statement "every well-typed default of a modelled annotation survives the trip" … -/
+def AllTypedDefaultsStable : Prop :=
+  ∀ (fenv : FEnv) (f : FieldSpec) (v : Val), f.default = .value v → WellTyped f.ty v = true → modelledTy f.ty = true →
+    LeafStable fenv f v
+
+/-- … is false for the Union finding (`Union[float, str] = "0"` is well-typed) … -/
+theorem c01_union_default_typed_witness : ¬ AllTypedDefaultsStable := by
+  intro h
+  have := h [("0".toList, some "0.0".toList)] unionLeaf (.sc (.str "0".toList)) rfl (by decide) (by decide)
+  have h2 : leafEmpty [("0".toList, some "0.0".toList)] unionLeaf (some (.sc (.str "0".toList))) false =
+      .ok (.sc (.float "0.0".toList)) := by rfl
+  unfold LeafStable at this
+  rw [h2] at this
+  injection this with h3
+  injection h3 with h4
+  cases h4
+
+/-- `x: Literal["0", 0] = "0"` -/
+def literalLeaf : FieldSpec :=
+  { name := "x".toList, ty := { inner := .literal [.str "0".toList, .int 0], optional := false },
+    default := .value (.sc (.str "0".toList)) }
+
+/-- what the model computes for it: the int `0` (open finding C01-literal-name-collision) -/
+theorem literalLeaf_comes_back_int (fenv : FEnv) :
+    leafEmpty fenv literalLeaf none false = .ok (.sc (.int 0)) := by rfl
+
+/-- … and for the Literal finding: `Literal["0", 0] = "0"` comes back as the int `0`, because the name → value table
+    `{str(v): v}` (field_wrapper.py:891) keeps the LAST value of each name -/
+theorem c01_literal_collision_witness : ¬ AllTypedDefaultsStable := by
+  intro h
+  have := h [] literalLeaf (.sc (.str "0".toList)) rfl (by decide) (by decide)
+  have h2 : leafEmpty [] literalLeaf (some (.sc (.str "0".toList))) false = .ok (.sc (.int 0)) := by rfl
+  unfold LeafStable at this
+  rw [h2] at this
+  injection this with h3
+  injection h3 with h4
+  cases h4
+
+/-- the same leaf refutes the untyped statement as well -/
+theorem c01_literal_collision_witness' : ¬ AllDefaultsStable := by
+  intro h
+  have := h [] literalLeaf (.sc (.str "0".toList)) rfl
+  have h2 : leafEmpty [] literalLeaf (some (.sc (.str "0".toList))) false = .ok (.sc (.int 0)) := by rfl
+  unfold LeafStable at this
+  rw [h2] at this
+  injection this with h3
+  injection h3 with h4
+  cases h4
+
+
+/-- **every well-typed default is stable, outside the two open findings** (`_partial` of `AllTypedDefaultsStable`
+    under the named decidable exclusions `unionStr` and `literalShadowed`) -/
+theorem c01_typed_defaults_partial (fenv : FEnv) (f : FieldSpec) (v : Val)
+    (hw : WellTyped f.ty v = true) (hm : modelledTy f.ty = true)
+    (hu : unionStr f.ty v = false) (hl : literalShadowed f.ty v = false) : LeafStable fenv f v :=
+  leafStable_of_stableDefault fenv f v (stableDefault_of_wellTyped f.ty v hw hm hu hl)
+
+/-- the exclusions are exactly the findings' shapes: the shadowed `"0"` is excluded, the int `0` of the same Literal and
+    `"0"` when it comes LAST are not; a non-string value of a Union is not -/
+example : literalShadowed literalLeaf.ty (.sc (.str "0".toList)) = true := by decide
+example : leafOK literalLeaf.ty (.sc (.int 0)) = true := by decide
+example : leafOK { inner := .literal [.int 0, .str "0".toList], optional := false } (.sc (.str "0".toList)) = true := by decide
+example : leafOK { inner := .literal [.int 1, .str "zero".toList], optional := false } (.sc (.str "zero".toList)) = true := by decide
+example : leafOK unionLeaf.ty (.sc (.float "1.5".toList)) = true := by decide
+example : leafOK unionLeaf.ty (.sc (.str "0".toList)) = false := by decide
+example : leafOK { inner := .list (.base .int), optional := true } (.sc .none) = true := by decide
+example : leafOK { inner := .tuple [.base .int, .base .str], optional := false } (.tuple [.int 1, .str "a".toList]) = true := by decide
+
+/-- the partial theorem applied: `w: Optional[List[float]] = None` and `t: Tuple[int, str] = (1, "a")`, whatever the
+    float table, field name and aliases -/
+example (fenv : FEnv) (d : DefaultV) : LeafStable fenv
+    { name := "w".toList, ty := { inner := .list (.base .float), optional := true }, default := d } (.sc .none) :=
+  c01_typed_defaults_partial fenv _ _ rfl rfl rfl rfl
+example (fenv : FEnv) (d : DefaultV) : LeafStable fenv
+    { name := "t".toList, ty := { inner := .tuple [.base .int, .base .str], optional := false }, default := d }
+    (.tuple [.int 1, .str "a".toList]) :=
+  c01_typed_defaults_partial fenv _ _ rfl rfl rfl rfl
+/-- `stable_optional_none_any`: an Optional heterogeneous tuple holding None -/
+example (fenv : FEnv) : LeafStable fenv
+    { name := "t".toList, ty := { inner := .tuple [.base .int, .base .str], optional := true }, default := .missing } (.sc .none) :=
+  stable_optional_none_any fenv _ [] _ _ (by decide)
 
 mutual
 def FitsTyped (fenv : FEnv) : CTree → IVal → Prop
@@ -414,6 +695,142 @@ theorem c01_caller_default_typed (fenv : FEnv) (t : CTree) (i : IVal) (h : FitsT
     parseEmptyTop fenv t (some i) = .ok i :=
   c01_caller_default fenv t i (fitsStable_of_typed fenv t i h)
 
+/-! ### an Optional member left at None stays None: proved, not assumed -/
+
+def CFields.leafNames : CFields → List Str
+  | .nil => []
+  | .leaf f rest => f.name :: CFields.leafNames rest
+  | .child _ _ _ _ rest => CFields.leafNames rest
+
+def CFields.subNames : CFields → List Str
+  | .nil => []
+  | .leaf _ rest => CFields.subNames rest
+  | .child n _ _ _ rest => n :: CFields.subNames rest
+
+def IFields.leaves : IFields → List (Str × Val)
+  | .nil => []
+  | .leaf n v rest => (n, v) :: IFields.leaves rest
+  | .sub _ _ rest => IFields.leaves rest
+
+/-- the leaf defaults a wrapper without default instance records: the fields' own defaults -/
+def ownLeafDefaults : CFields → List (Str × Val)
+  | .nil => []
+  | .leaf f rest => (f.name, defaultVal f.default) :: ownLeafDefaults rest
+  | .child _ _ _ _ rest => ownLeafDefaults rest
+
+theorem ownLeafDefaults_names (fs : CFields) : (ownLeafDefaults fs).map Prod.fst = CFields.leafNames fs := by
+  match fs with
+  | .nil => rfl
+  | .leaf f rest => simp [ownLeafDefaults, CFields.leafNames, ownLeafDefaults_names rest]
+  | .child _ _ _ _ rest => simp [ownLeafDefaults, CFields.leafNames, ownLeafDefaults_names rest]
+
+/-! "quiet" subtree, by recursion on the class tree: every leaf comes back as its own declared default (None when it has
+    none) when nothing is typed and no default instance exists; members are quiet recursively -/
+mutual
+def QuietT (fenv : FEnv) : CTree → Prop
+  | .mk _ fs => QuietF fenv fs
+def QuietF (fenv : FEnv) : CFields → Prop
+  | .nil => True
+  | .leaf f rest => leafEmpty fenv f none true = .ok (defaultVal f.default) ∧ QuietF fenv rest
+  | .child _ _ _ t rest => QuietT fenv t ∧ QuietF fenv rest
+end
+
+theorem lookup_self_of_nodup (l : List (Str × Val)) (hnd : (l.map Prod.fst).Nodup) :
+    ∀ p ∈ l, l.lookup p.1 = some p.2 := by
+  induction l with
+  | nil => intro p hp; cases hp
+  | cons a l ih =>
+    intro p hp
+    simp only [List.map_cons, List.nodup_cons] at hnd
+    rcases List.mem_cons.mp hp with rfl | hp'
+    · simp [List.lookup]
+    · have hne : p.1 ≠ a.1 := by
+        intro h
+        exact hnd.1 (h ▸ List.mem_map_of_mem (f := Prod.fst) hp')
+      obtain ⟨a1, a2⟩ := a
+      simp only [List.lookup]
+      have : (p.1 == a1) = false := by simpa using hne
+      rw [this]
+      exact ih hnd.2 p hp'
+
+theorem allLeavesEq_iff (r : IFields) (ds : List (Str × Val)) :
+    r.allLeavesEq ds = true ↔ ∀ p ∈ IFields.leaves r, ds.lookup p.1 = some p.2 := by
+  match r with
+  | .nil => simp [IFields.allLeavesEq, IFields.leaves]
+  | .leaf n v rest =>
+    simp only [IFields.allLeavesEq, IFields.leaves, Bool.and_eq_true, beq_iff_eq, List.mem_cons, forall_eq_or_imp,
+      allLeavesEq_iff rest ds]
+  | .sub _ _ rest => simp only [IFields.allLeavesEq, IFields.leaves, allLeavesEq_iff rest ds]
+
+mutual
+theorem quietT_ok (fenv : FEnv) : ∀ (t : CTree) (optional : Bool), QuietT fenv t →
+    ∃ v, parseEmptyChild fenv t none .presentNone true optional = .ok v
+  | .mk cls fs, optional, h => by
+    simp only [QuietT] at h
+    obtain ⟨r, _, hp⟩ := quietF_parse fenv fs h
+    simp only [parseEmptyChild, hp]
+    split <;> exact ⟨_, rfl⟩
+theorem quietF_parse (fenv : FEnv) : ∀ (fs : CFields), QuietF fenv fs →
+    ∃ r, IFields.leaves r = ownLeafDefaults fs ∧
+      parseEmptyFields fenv fs none .presentNone true = .ok (r, ownLeafDefaults fs)
+  | .nil, _ => ⟨.nil, rfl, rfl⟩
+  | .leaf f rest, h => by
+    simp only [QuietF] at h
+    obtain ⟨r, hl, hp⟩ := quietF_parse fenv rest h.2
+    refine ⟨.leaf f.name (defaultVal f.default) r, by simp [IFields.leaves, ownLeafDefaults, hl], ?_⟩
+    simp [parseEmptyFields, h.1, hp, ownLeafDefaults]
+  | .child name optional dflt t rest, h => by
+    simp only [QuietF] at h
+    obtain ⟨r, hl, hp⟩ := quietF_parse fenv rest h.2
+    obtain ⟨v, hv⟩ := quietT_ok fenv t optional h.1
+    refine ⟨.sub name v r, by simp [IFields.leaves, ownLeafDefaults, hl], ?_⟩
+    simp [parseEmptyFields, hv, hp, ownLeafDefaults]
+end
+
+/-- **an Optional member left at None stays None** — no longer assumed: it holds for every subtree (any depth) whose
+    leaves come back as their own defaults and whose own leaf names are distinct (as dataclass fields are) -/
+theorem quietNone_of_quietF (fenv : FEnv) (cls : Str) (fs : CFields) (h : QuietF fenv fs)
+    (hnd : (CFields.leafNames fs).Nodup) : QuietNone fenv (.mk cls fs) := by
+  obtain ⟨r, hl, hp⟩ := quietF_parse fenv fs h
+  have hall : r.allLeavesEq (ownLeafDefaults fs) = true := by
+    rw [allLeavesEq_iff, hl]
+    exact lookup_self_of_nodup _ (by rw [ownLeafDefaults_names]; exact hnd)
+  simp [QuietNone, parseEmptyChild, hp, hall]
+
+/-! ### leaves of a quiet subtree, syntactically -/
+
+theorem leafEmpty_own (fenv : FEnv) (f : FieldSpec) (v : Val) (o : Bool) (hd : f.default = .value v) :
+    leafEmpty fenv f none o = leafEmpty fenv f (some v) o := by
+  unfold leafEmpty
+  simp only [hd]
+
+theorem leafEmpty_missing (fenv : FEnv) (f : FieldSpec) (hd : f.default = .missing) (hm : modelledTy f.ty = true) :
+    leafEmpty fenv f none true = .ok (.sc .none) := by
+  obtain ⟨name, ⟨inner, opt⟩, d, als⟩ := f
+  simp only at hd hm
+  subst hd
+  unfold leafEmpty
+  cases inner with
+  | sc t =>
+    cases t with
+    | base b => cases opt <;> cases b <;> simp [argOptions, defaultVal, postprocess]
+    | union a => cases opt <;> simp [argOptions, defaultVal, postprocess]
+  | literal vals =>
+    cases opt
+    · cases hn : vals.mapM literalName with
+      | none => simp [modelledTy, hn] at hm
+      | some names => simp [argOptions, defaultVal, postprocess, hn]
+    · simp [modelledTy] at hm
+  | list item =>
+    cases hc : containerConv item with
+    | none => exact absurd hc (containerConv_ne_none item)
+    | some c => cases opt <;> simp [argOptions, defaultVal, postprocess, hc, tupleToList]
+  | tuple items =>
+    cases hc : tupleConv items with
+    | none => cases opt <;> simp [modelledTy, hc] at hm
+    | some c => cases opt <;> simp [argOptions, defaultVal, postprocess, hc, listToTuple]
+  | vtuple item => cases opt <;> simp [argOptions, defaultVal, postprocess, listToTuple]
+
 /-! non-vacuity: a two-level tree with an Optional member, a caller instance that fits it -/
 def demoTree : CTree :=
   .mk "K0".toList
@@ -441,4 +858,375 @@ example : FitsTyped [] demoTree demoInst := by
     StableDefault.plain .int false (.int 9) (Or.inl rfl) (by intro s h; cases h) (by intro h; cases h)
   exact ⟨trivial, trivial, by rfl, h7, trivial, by rfl, ⟨trivial, trivial, by rfl, h9, trivial⟩, trivial⟩
 
+/-! ### syntactic hypotheses: typed leaves, quiet None members, typed own defaults -/
+
+/-- a leaf's OWN default is a typed one (or it has none: then argparse's default is None) -/
+def LeafDefaultTyped (f : FieldSpec) : Prop :=
+  (∃ v, f.default = .value v ∧ leafOK f.ty v = true) ∨ (f.default = .missing ∧ modelledTy f.ty = true)
+
+theorem leaf_quiet_of_typed (fenv : FEnv) (f : FieldSpec) (h : LeafDefaultTyped f) :
+    leafEmpty fenv f none true = .ok (defaultVal f.default) := by
+  rcases h with ⟨v, hd, hok⟩ | ⟨hd, hm⟩
+  · rw [leafEmpty_own fenv f v true hd, hd]
+    exact leafEmpty_opt_irrelevant fenv f v true
+      (leafStable_of_stableDefault fenv f v (stableDefault_of_leafOK f.ty v hok))
+  · rw [leafEmpty_missing fenv f hd hm, hd]; rfl
+
+mutual
+def QuietTypedT : CTree → Prop
+  | .mk _ fs => QuietTypedF fs
+def QuietTypedF : CFields → Prop
+  | .nil => True
+  | .leaf f rest => LeafDefaultTyped f ∧ QuietTypedF rest
+  | .child _ _ _ t rest => QuietTypedT t ∧ QuietTypedF rest
+end
+
+mutual
+theorem quietT_of_typed (fenv : FEnv) : ∀ (t : CTree), QuietTypedT t → QuietT fenv t
+  | .mk _ fs, h => by
+    simp only [QuietTypedT] at h
+    simp only [QuietT]
+    exact quietF_of_typed fenv fs h
+theorem quietF_of_typed (fenv : FEnv) : ∀ (fs : CFields), QuietTypedF fs → QuietF fenv fs
+  | .nil, _ => by simp [QuietF]
+  | .leaf f rest, h => by
+    simp only [QuietTypedF] at h
+    simp only [QuietF]
+    exact ⟨leaf_quiet_of_typed fenv f h.1, quietF_of_typed fenv rest h.2⟩
+  | .child _ _ _ t rest, h => by
+    simp only [QuietTypedF] at h
+    simp only [QuietF]
+    exact ⟨quietT_of_typed fenv t h.1, quietF_of_typed fenv rest h.2⟩
+end
+
+/-- syntactic quietness of a member's class: typed own defaults at every depth, distinct leaf names at its top level -/
+def QuietSyn : CTree → Prop
+  | .mk _ fs => QuietTypedF fs ∧ (CFields.leafNames fs).Nodup
+
+theorem quietNone_of_syn (fenv : FEnv) (t : CTree) (h : QuietSyn t) : QuietNone fenv t := by
+  match t, h with
+  | .mk cls fs, h => exact quietNone_of_quietF fenv cls fs (quietF_of_typed fenv fs h.1) h.2
+
+/-! ### instances, syntactically: every leaf value typed (outside the two exclusions), members holding None quiet -/
+mutual
+def FitsWT : CTree → IVal → Prop
+  | .mk cls fs, .inst cls' ifs => cls = cls' ∧ FitsWTF fs ifs (.inst cls' ifs)
+  | .mk _ _, .nul => False
+def FitsWTF : CFields → IFields → IVal → Prop
+  | .nil, .nil, _ => True
+  | .leaf f rest, .leaf n v irest, whole =>
+    n = f.name ∧ whole.getLeaf f.name = some v ∧ leafOK f.ty v = true ∧ FitsWTF rest irest whole
+  | .child name optional _ t rest, .sub n v irest, whole =>
+    n = name ∧ whole.getSub name = some v ∧
+    (match v with
+     | .nul => optional = true ∧ QuietSyn t
+     | .inst c fs => FitsWT t (.inst c fs)) ∧
+    FitsWTF rest irest whole
+  | _, _, _ => False
+end
+
+mutual
+theorem fitsTyped_of_wt (fenv : FEnv) : ∀ (t : CTree) (i : IVal), FitsWT t i → FitsTyped fenv t i
+  | .mk cls fs, .inst cls' ifs, h => by
+    simp only [FitsWT] at h
+    simp only [FitsTyped]
+    exact ⟨h.1, fitsTypedF_of_wt fenv fs ifs _ h.2⟩
+  | .mk _ _, .nul, h => by simp [FitsWT] at h
+theorem fitsTypedF_of_wt (fenv : FEnv) : ∀ (fs : CFields) (ifs : IFields) (whole : IVal),
+    FitsWTF fs ifs whole → FitsTypedF fenv fs ifs whole
+  | .nil, .nil, _, _ => by simp [FitsTypedF]
+  | .leaf f rest, .leaf n v irest, whole, h => by
+    simp only [FitsWTF] at h
+    simp only [FitsTypedF]
+    exact ⟨h.1, h.2.1, stableDefault_of_leafOK f.ty v h.2.2.1, fitsTypedF_of_wt fenv rest irest whole h.2.2.2⟩
+  | .child name optional d t rest, .sub n v irest, whole, h => by
+    simp only [FitsWTF] at h
+    simp only [FitsTypedF]
+    refine ⟨h.1, h.2.1, ?_, fitsTypedF_of_wt fenv rest irest whole h.2.2.2⟩
+    match v, h.2.2.1 with
+    | .nul, hv => exact ⟨hv.1, quietNone_of_syn fenv t hv.2⟩
+    | .inst c fs, hv => exact fitsTyped_of_wt fenv t (.inst c fs) hv
+  | .nil, .leaf _ _ _, _, h => by simp [FitsWTF] at h
+  | .nil, .sub _ _ _, _, h => by simp [FitsWTF] at h
+  | .leaf _ _, .nil, _, h => by simp [FitsWTF] at h
+  | .leaf _ _, .sub _ _ _, _, h => by simp [FitsWTF] at h
+  | .child _ _ _ _ _, .nil, _, h => by simp [FitsWTF] at h
+  | .child _ _ _ _ _, .leaf _ _ _, _, h => by simp [FitsWTF] at h
+end
+
+/-- **C01 (caller-supplied default instance), fully syntactic hypothesis.** -/
+theorem c01_caller_default_wellTyped (fenv : FEnv) (t : CTree) (i : IVal) (h : FitsWT t i) :
+    parseEmptyTop fenv t (some i) = .ok i :=
+  c01_caller_default_typed fenv t i (fitsTyped_of_wt fenv t i h)
+
+
+/-! ### no caller default, syntactically -/
+
+def IFields.leafNames : IFields → List Str
+  | .nil => []
+  | .leaf n _ rest => n :: IFields.leafNames rest
+  | .sub _ _ rest => IFields.leafNames rest
+
+def IFields.subNames : IFields → List Str
+  | .nil => []
+  | .leaf _ _ rest => IFields.subNames rest
+  | .sub n _ rest => n :: IFields.subNames rest
+
+theorem getLeaf_mem (ifs : IFields) (k : Str) (v : Val) (h : ifs.getLeaf k = some v) : k ∈ IFields.leafNames ifs := by
+  match ifs with
+  | .nil => simp [IFields.getLeaf] at h
+  | .leaf n x rest =>
+    simp only [IFields.getLeaf] at h
+    by_cases hn : n = k
+    · simp [IFields.leafNames, hn]
+    · simp only [hn, ↓reduceIte] at h
+      simp [IFields.leafNames, getLeaf_mem rest k v h]
+  | .sub _ _ rest =>
+    simp only [IFields.getLeaf] at h
+    simp [IFields.leafNames, getLeaf_mem rest k v h]
+
+theorem getSub_mem (ifs : IFields) (k : Str) (v : IVal) (h : ifs.getSub k = some v) : k ∈ IFields.subNames ifs := by
+  match ifs with
+  | .nil => simp [IFields.getSub] at h
+  | .leaf _ _ rest =>
+    simp only [IFields.getSub] at h
+    simp [IFields.subNames, getSub_mem rest k v h]
+  | .sub n x rest =>
+    simp only [IFields.getSub] at h
+    by_cases hn : n = k
+    · simp [IFields.subNames, hn]
+    · simp only [hn, ↓reduceIte] at h
+      simp [IFields.subNames, getSub_mem rest k v h]
+
+/-- `FitsStableF` without the attribute look-ups (they follow from distinct field names) -/
+def FitsLocF (fenv : FEnv) : CFields → IFields → Prop
+  | .nil, .nil => True
+  | .leaf f rest, .leaf n v irest => n = f.name ∧ LeafStable fenv f v ∧ FitsLocF fenv rest irest
+  | .child name optional _ t rest, .sub n v irest =>
+    n = name ∧
+    (match v with
+     | .nul => optional = true ∧ QuietNone fenv t
+     | .inst c fs => FitsStable fenv t (.inst c fs)) ∧
+    FitsLocF fenv rest irest
+  | _, _ => False
+
+/-- `whole` answers every look-up the way the tail `ifs` does -/
+def Agrees (ifs : IFields) (whole : IVal) : Prop :=
+  (∀ k v, ifs.getLeaf k = some v → whole.getLeaf k = some v) ∧
+  (∀ k v, ifs.getSub k = some v → whole.getSub k = some v)
+
+theorem fitsStableF_of_loc (fenv : FEnv) : ∀ (fs : CFields) (ifs : IFields) (whole : IVal),
+    FitsLocF fenv fs ifs → (IFields.leafNames ifs).Nodup → (IFields.subNames ifs).Nodup → Agrees ifs whole →
+    FitsStableF fenv fs ifs whole
+  | .nil, .nil, _, _, _, _, _ => by simp [FitsStableF]
+  | .leaf f rest, .leaf n v irest, whole, h, hl, hs, ha => by
+    simp only [FitsLocF] at h
+    obtain ⟨hn, hst, hrest⟩ := h
+    subst hn
+    simp only [IFields.leafNames, List.nodup_cons] at hl
+    simp only [IFields.subNames] at hs
+    simp only [FitsStableF]
+    refine ⟨trivial, ha.1 _ v (by simp [IFields.getLeaf]), hst, ?_⟩
+    refine fitsStableF_of_loc fenv rest irest whole hrest hl.2 hs ⟨?_, ?_⟩
+    · intro k x hk
+      apply ha.1
+      have hne : f.name ≠ k := by
+        intro he; exact hl.1 (he ▸ getLeaf_mem irest k x hk)
+      simp [IFields.getLeaf, hne, hk]
+    · intro k x hk
+      apply ha.2
+      simpa [IFields.getSub] using hk
+  | .child name optional d t rest, .sub n v irest, whole, h, hl, hs, ha => by
+    simp only [FitsLocF] at h
+    obtain ⟨hn, hv, hrest⟩ := h
+    subst hn
+    simp only [IFields.subNames, List.nodup_cons] at hs
+    simp only [IFields.leafNames] at hl
+    simp only [FitsStableF]
+    refine ⟨trivial, ha.2 _ v (by simp [IFields.getSub]), hv, ?_⟩
+    refine fitsStableF_of_loc fenv rest irest whole hrest hl hs.2 ⟨?_, ?_⟩
+    · intro k x hk
+      apply ha.1
+      simpa [IFields.getLeaf] using hk
+    · intro k x hk
+      apply ha.2
+      have hne : n ≠ k := by
+        intro he; exact hs.1 (he ▸ getSub_mem irest k x hk)
+      simp [IFields.getSub, hne, hk]
+  | .nil, .leaf _ _ _, _, h, _, _, _ => by simp [FitsLocF] at h
+  | .nil, .sub _ _ _, _, h, _, _, _ => by simp [FitsLocF] at h
+  | .leaf _ _, .nil, _, h, _, _, _ => by simp [FitsLocF] at h
+  | .leaf _ _, .sub _ _ _, _, h, _, _, _ => by simp [FitsLocF] at h
+  | .child _ _ _ _ _, .nil, _, h, _, _, _ => by simp [FitsLocF] at h
+  | .child _ _ _ _ _, .leaf _ _ _, _, h, _, _, _ => by simp [FitsLocF] at h
+
+/-! "every field of the class has a typed default of its own, at every depth": leaves carry a typed default value
+    (outside the two exclusions); members are `Optional … = None` with a syntactically quiet class,
+    `default_factory=Cls` with `Cls` again of this kind, or `default_factory=lambda: inst` with a typed instance;
+    field names are distinct (as dataclass fields are). No model evaluation inside. -/
+mutual
+def OwnTyped : CTree → Prop
+  | .mk _ fs => OwnTypedF fs ∧ (CFields.leafNames fs).Nodup ∧ (CFields.subNames fs).Nodup
+def OwnTypedF : CFields → Prop
+  | .nil => True
+  | .leaf f rest => (∃ v, f.default = .value v ∧ leafOK f.ty v = true) ∧ OwnTypedF rest
+  | .child _ optional dflt t rest =>
+    (match dflt with
+     | .missing => False
+     | .noneVal => optional = true ∧ QuietSyn t
+     | .factoryCls => OwnTyped t
+     | .factoryInst i => FitsWT t i) ∧ OwnTypedF rest
+end
+
+mutual
+/-- the constructor's own result fits the class and is stable -/
+theorem construct_fits (fenv : FEnv) : ∀ (t : CTree), OwnTyped t →
+    ∃ i, construct t = .ok i ∧ FitsStable fenv t i
+  | .mk cls fs, h => by
+    simp only [OwnTyped] at h
+    obtain ⟨r, hc, hloc, hln, hsn⟩ := constructFields_loc fenv fs h.1
+    refine ⟨.inst cls r, by simp [construct, hc], ?_⟩
+    simp only [FitsStable, true_and]
+    exact fitsStableF_of_loc fenv fs r (.inst cls r) hloc (hln ▸ h.2.1) (hsn ▸ h.2.2)
+      ⟨fun _ _ hk => hk, fun _ _ hk => hk⟩
+theorem constructFields_loc (fenv : FEnv) : ∀ (fs : CFields), OwnTypedF fs →
+    ∃ r, constructFields fs = .ok r ∧ FitsLocF fenv fs r ∧
+      IFields.leafNames r = CFields.leafNames fs ∧ IFields.subNames r = CFields.subNames fs
+  | .nil, _ => ⟨.nil, rfl, by simp [FitsLocF], rfl, rfl⟩
+  | .leaf f rest, h => by
+    simp only [OwnTypedF] at h
+    obtain ⟨⟨v, hd, hok⟩, hrest⟩ := h
+    obtain ⟨r, hc, hloc, hln, hsn⟩ := constructFields_loc fenv rest hrest
+    refine ⟨.leaf f.name v r, by simp [constructFields, hd, hc], ?_, by simp [IFields.leafNames, CFields.leafNames, hln],
+      by simp [IFields.subNames, CFields.subNames, hsn]⟩
+    simp only [FitsLocF, true_and]
+    exact ⟨leafStable_of_stableDefault fenv f v (stableDefault_of_leafOK f.ty v hok), hloc⟩
+  | .child name optional dflt t rest, h => by
+    simp only [OwnTypedF] at h
+    obtain ⟨hd, hrest⟩ := h
+    obtain ⟨r, hc, hloc, hln, hsn⟩ := constructFields_loc fenv rest hrest
+    have hnames : ∀ v, IFields.leafNames (.sub name v r) = CFields.leafNames (.child name optional dflt t rest) ∧
+        IFields.subNames (.sub name v r) = CFields.subNames (.child name optional dflt t rest) := by
+      intro v; simp [IFields.leafNames, CFields.leafNames, IFields.subNames, CFields.subNames, hln, hsn]
+    cases dflt with
+    | missing => exact absurd hd id
+    | noneVal =>
+      refine ⟨.sub name .nul r, by simp [constructFields, hc], ?_, (hnames _).1, (hnames _).2⟩
+      simp only [FitsLocF, true_and]
+      exact ⟨⟨hd.1, quietNone_of_syn fenv t hd.2⟩, hloc⟩
+    | factoryCls =>
+      obtain ⟨i, hci, hfit⟩ := construct_fits fenv t hd
+      refine ⟨.sub name i r, by simp [constructFields, hci, hc], ?_, (hnames _).1, (hnames _).2⟩
+      simp only [FitsLocF, true_and]
+      refine ⟨?_, hloc⟩
+      match t, i, hfit with
+      | .mk _ _, .inst c cfs, hfit => exact hfit
+    | factoryInst i =>
+      have hfit := fitsStable_of_typed fenv t i (fitsTyped_of_wt fenv t i hd)
+      refine ⟨.sub name i r, by simp [constructFields, hc], ?_, (hnames _).1, (hnames _).2⟩
+      simp only [FitsLocF, true_and]
+      refine ⟨?_, hloc⟩
+      match t, i, hfit with
+      | .mk _ _, .inst c cfs, hfit => exact hfit
+end
+
+theorem ownStable_of_typed (fenv : FEnv) : ∀ (fs : CFields), OwnTypedF fs → OwnStable fenv fs
+  | .nil, _ => by simp [OwnStable]
+  | .leaf f rest, h => by
+    simp only [OwnTypedF] at h
+    obtain ⟨⟨v, hd, hok⟩, hrest⟩ := h
+    simp only [OwnStable]
+    refine ⟨⟨v, hd, ?_⟩, ownStable_of_typed fenv rest hrest⟩
+    rw [leafEmpty_own fenv f v false hd]
+    exact leafStable_of_stableDefault fenv f v (stableDefault_of_leafOK f.ty v hok)
+  | .child name optional dflt t rest, h => by
+    simp only [OwnTypedF] at h
+    obtain ⟨hd, hrest⟩ := h
+    simp only [OwnStable]
+    refine ⟨?_, ownStable_of_typed fenv rest hrest⟩
+    cases dflt with
+    | missing => exact absurd hd id
+    | noneVal => exact ⟨hd.1, quietNone_of_syn fenv t hd.2⟩
+    | factoryCls => exact construct_fits fenv t hd
+    | factoryInst i => exact fitsStable_of_typed fenv t i (fitsTyped_of_wt fenv t i hd)
+
+/-- **C01 (no caller default), fully syntactic hypothesis.** A class whose fields all carry typed defaults of their own
+    (any depth; `default_factory=Cls` members, `default_factory=lambda: inst` members, `Optional … = None` members):
+    the empty command line yields exactly what the dataclass constructor produces by itself. -/
+theorem c01_no_caller_typed (fenv : FEnv) (cls : Str) (fs : CFields) (h : OwnTyped (.mk cls fs)) :
+    ∃ i, construct (.mk cls fs) = .ok i ∧ parseEmptyTop fenv (.mk cls fs) none = .ok i := by
+  simp only [OwnTyped] at h
+  exact c01_no_caller fenv cls fs (ownStable_of_typed fenv fs h.1)
+
+/-! ### non-vacuity of the syntactic hypotheses -/
+
+def leafInt (n : String) (k : Int) : FieldSpec :=
+  { name := n.toList, ty := { inner := .sc (.base .int), optional := false }, default := .value (.sc (.int k)) }
+
+/-- `class K1: x: int = 5; t: Tuple[int, str]` (a REQUIRED tuple field) -/
+def k1 : CTree :=
+  .mk "K1".toList (.leaf (leafInt "x" 5)
+    (.leaf { name := "t".toList, ty := { inner := .tuple [.base .int, .base .str], optional := false }, default := .missing } .nil))
+
+def k2 : CTree := .mk "K2".toList (.leaf (leafInt "y" 2) .nil)
+
+/-- `class K0: a: int = 1; m: Literal[0, "0"] = "0"; o: Optional[K1] = None; c: K2 = field(default_factory=K2);
+    d: Optional[K2] = field(default_factory=lambda: K2(y=9))` -/
+def ownTree : CTree :=
+  .mk "K0".toList
+    (.leaf (leafInt "a" 1)
+    (.leaf { name := "m".toList, ty := { inner := .literal [.int 0, .str "0".toList], optional := false },
+             default := .value (.sc (.str "0".toList)) }
+    (.child "o".toList true .noneVal k1
+    (.child "c".toList false .factoryCls k2
+    (.child "d".toList true (.factoryInst (.inst "K2".toList (.leaf "y".toList (.sc (.int 9)) .nil))) k2 .nil)))))
+
+/-- an Optional member whose class has a required field is quiet (the repaired tuple(None) case included) -/
+example : QuietSyn k1 := by
+  refine ⟨⟨Or.inl ⟨_, rfl, by decide⟩, Or.inr ⟨rfl, by decide⟩, trivial⟩, by decide⟩
+
+example (fenv : FEnv) : QuietNone fenv k1 :=
+  quietNone_of_syn fenv k1 ⟨⟨Or.inl ⟨_, rfl, by decide⟩, Or.inr ⟨rfl, by decide⟩, trivial⟩, by decide⟩
+
+theorem ownTree_typed : OwnTyped ownTree := by
+  refine ⟨⟨⟨_, rfl, by decide⟩, ⟨_, rfl, by decide⟩, ⟨rfl, ?_⟩, ?_, ?_, trivial⟩, by decide, by decide⟩
+  · exact ⟨⟨Or.inl ⟨_, rfl, by decide⟩, Or.inr ⟨rfl, by decide⟩, trivial⟩, by decide⟩
+  · exact ⟨⟨⟨_, rfl, by decide⟩, trivial⟩, by decide, by decide⟩
+  · exact ⟨rfl, rfl, rfl, by decide, trivial⟩
+
+/-- `c01_no_caller_typed` applies to a class with a `default_factory=Cls` member, a `default_factory=lambda: inst`
+    member and an `Optional … = None` member -/
+example (fenv : FEnv) : ∃ i, construct ownTree = .ok i ∧ parseEmptyTop fenv ownTree none = .ok i :=
+  c01_no_caller_typed fenv _ _ ownTree_typed
+
+/-- a caller instance with `o = None` (the Optional member LEFT at None) and `d` holding an instance -/
+def ownInst : IVal :=
+  .inst "K0".toList
+    (.leaf "a".toList (.sc (.int 7))
+    (.leaf "m".toList (.sc (.int 0))
+    (.sub "o".toList .nul
+    (.sub "c".toList (.inst "K2".toList (.leaf "y".toList (.sc (.int 3)) .nil))
+    (.sub "d".toList .nul .nil)))))
+
+theorem ownInst_fits : FitsWT ownTree ownInst := by
+  refine ⟨rfl, rfl, rfl, by decide, rfl, rfl, by decide, rfl, rfl, ⟨rfl, ?_⟩, rfl, rfl, ?_, rfl, rfl, ⟨rfl, ?_⟩, trivial⟩
+  · exact ⟨⟨Or.inl ⟨_, rfl, by decide⟩, Or.inr ⟨rfl, by decide⟩, trivial⟩, by decide⟩
+  · exact ⟨rfl, rfl, rfl, by decide, trivial⟩
+  · exact ⟨⟨Or.inl ⟨_, rfl, by decide⟩, trivial⟩, by decide⟩
+
+example (fenv : FEnv) : parseEmptyTop fenv ownTree (some ownInst) = .ok ownInst :=
+  c01_caller_default_wellTyped fenv _ _ ownInst_fits
+
+/-- `stable_literal` / `literal_finds_itself`: `"b"` in `Literal["a", "b", 1]` -/
+example (fenv : FEnv) : LeafStable fenv
+    { name := "l".toList, ty := { inner := .literal [.str "a".toList, .str "b".toList, .int 1], optional := false },
+      default := .missing } (.sc (.str "b".toList)) :=
+  stable_literal fenv _ [] _ _ _ (by decide)
+    (literal_finds_itself _ _ (by decide) (by
+      intro w hw h
+      simp only [List.mem_cons, List.not_mem_nil, or_false] at hw
+      rcases hw with rfl | rfl | rfl
+      · simp [literalName] at h
+      · rfl
+      · revert h; decide))
 end SpVerif.C01
